@@ -27,7 +27,9 @@ EXTENDS Gfa, TLC
 CONSTANTS Catalogue,        \* sequence of abstract lines that may be added
           MaxObjs,          \* bound on the number of objects ever created
           MaxOps,           \* bound on the number of public calls
-          SnapshotCascade   \* BOOLEAN
+          SnapshotCascade,  \* BOOLEAN
+          RepointMerged     \* BOOLEAN: a merged group definition takes over the back-references
+                            \* its predecessor left in its items (the repaired code) or not (pinned)
 
 VARIABLES objs,    \* oid -> object record (see NewObj)
           nobj,    \* number of objects created so far
@@ -107,6 +109,42 @@ AddCall(l) ==
   /\ UNCHANGED stack
 
 -----------------------------------------------------------------------------
+(* a further line of a multi-line group (same identifier, same record type): the code builds a
+   NEW object, resolves its items, and lets it take the place of the previous object exactly as
+   if that were a placeholder -- so everything that pointed to the previous object (its
+   referrers' cells, and the back-reference entries it had left in ITS items) must be
+   re-pointed to the new object, whose items are the previous ones followed by the new ones *)
+Repoint(o, p, i) ==
+  [j \in DOMAIN o |->
+     [o[j] EXCEPT !.tgt = [k \in DOMAIN o[j].tgt |-> IF o[j].tgt[k] = p THEN i ELSE o[j].tgt[k]],
+                  !.br = IF RepointMerged
+                           THEN [k \in DOMAIN o[j].br |-> IF o[j].br[k][2] = p THEN <<o[j].br[k][1], i>> ELSE o[j].br[k]]
+                           ELSE o[j].br]]
+
+MergeCall(l) ==
+  /\ stack = <<>> /\ nops < MaxOps /\ nobj + 1 + Len(l.refs) <= MaxObjs
+  /\ IsGroup(l) /\ ~doc.orph
+  /\ \E p \in {j \in ByName(objs, l.name) : ~objs[j].virt /\ objs[j].line.rt = l.rt} :
+       LET outs == Step(doc, [k |-> "add", l |-> l, id |-> "", id2 |-> ""])
+           ok == \E x \in outs : x.res = "ok"
+           exp == CHOOSE x \in outs : (ok => x.res = "ok") IN
+       /\ exp.res # "unmodelled"
+       /\ nops' = nops + 1 /\ doc' = exp.st /\ last' = exp.res
+       /\ IF exp.res # "ok" THEN UNCHANGED <<objs, nobj>>
+          ELSE
+            LET i == nobj + 1
+                o0 == [j \in 1..i |-> IF j = i THEN NewObj(l, FALSE) ELSE objs[j]]
+                r == Resolve(o0, i, i, 1)                        \* the new items
+                mi == CHOOSE m \in DOMAIN exp.st.lines : exp.st.lines[m].name = l.name
+                o1 == [r.o EXCEPT ![i].line = exp.st.lines[mi],   \* reads as the merged definition
+                                  ![i].tgt = r.o[p].tgt \o r.o[i].tgt,
+                                  ![i].br = r.o[p].br, ![i].reg = TRUE,
+                                  ![p].reg = FALSE, ![p].br = <<>>,
+                                  ![p].tgt = [k \in DOMAIN r.o[p].tgt |-> 0]] IN
+            /\ objs' = Repoint(o1, p, i) /\ nobj' = r.n
+  /\ UNCHANGED stack
+
+-----------------------------------------------------------------------------
 (* disconnect: the cascade, one step at a time.  A frame is
    [oid, phase, list, idx]: phase "deps" walks the dependants, "finish" completes. *)
 
@@ -149,7 +187,7 @@ RenameCall(old, new) ==
   /\ stack = <<>> /\ nops < MaxOps
   /\ ~doc.orph          \* orphan placeholders are outside the claim (DESIGN 3.1)
   /\ \E i \in {j \in ByName(objs, old) : ~objs[j].virt} :
-       LET outs == Step(doc, [k |-> "ren", id |-> old, id2 |-> new, l |-> [rt |-> "none"]])
+       LET outs == Step(doc, [k |-> "ren", id |-> old, id2 |-> new, n |-> 0, l |-> [rt |-> "none"]])
            ok == \E x \in outs : x.res = "ok"
            exp == CHOOSE x \in outs : (ok => x.res = "ok") IN
        /\ exp.res # "unmodelled"
@@ -182,6 +220,7 @@ Init == /\ objs = <<>> /\ nobj = 0 /\ stack = <<>> /\ nops = 0 /\ last = "init"
 
 Ids == {"a", "b", "u", "v", "e1", "z"}
 Next == \/ \E k \in DOMAIN Catalogue : AddCall(Catalogue[k])
+        \/ \E k \in DOMAIN Catalogue : MergeCall(Catalogue[k])
         \/ \E id \in Ids : RmCall(id)
         \/ \E old \in {"a", "e1", "u"}, new \in {"z", "b"} : RenameCall(old, new)
         \/ CascadeStep
